@@ -1,4 +1,80 @@
 import Model.Attempt
+import Proofs.Lemmas.Attempt
+import Proofs.C15
+/-!
+# C03 — settled recipients are never attempted again; one attempt in flight per message
+
+Part 1 (this file): over *every* history of delivery attempts — any number of rounds, any number
+of recipients, any mixture of outcomes, any backoff — a recipient the relay reported delivered or
+permanently failed is in no later attempt. The storage side (indexes reported per round against
+the list of the last `get`) is C15's `accum_refines_reference`, re-exported here for the
+multi-round case. Part 2 (single attempt in flight under all interleavings) is `Proofs/Sched.lean`.
+-/
 namespace Slimta.C03
-theorem placeholder : (1 : Nat) = 1 := rfl
+open Slimta.Attempt
+
+/-- **A settled recipient is in no later attempt.** At any point of any valid history: whoever the
+    attempt just made reported delivered or failed for good is absent from the recipient list of
+    every later attempt of that message. -/
+theorem settled_never_attempted_again (cfg : Cfg) (m : Msg) (o : Outcome) (os : List Outcome)
+    (hv : ValidHistory cfg (some m) (o :: os)) (x : Rcpt)
+    (hx : x ∈ (attempt cfg m o).delivered ∨ x ∈ (attempt cfg m o).failed.map Prod.fst) :
+    ∀ l ∈ pres cfg (attempt cfg m o).msg os, x ∉ l := by
+  obtain ⟨hc, _⟩ := hv
+  intro l hl hxl
+  cases hm : (attempt cfg m o).msg with
+  | none => rw [hm] at hl; simp [pres] at hl
+  | some m' =>
+    rw [hm] at hl
+    have hin : x ∈ m'.rcpts := pres_subset cfg os m' l hl x hxl
+    have hcons := attempt_conserves cfg m o hc x
+    simp only [restCount, hm] at hcons
+    have hn : m.rcpts.Nodup := by cases o <;> first | exact hc | exact hc.2.1
+    have hle := List.nodup_iff_count.mp hn x
+    have h1 : 0 < m'.rcpts.count x := List.count_pos_iff.mpr hin
+    rcases hx with hx | hx
+    · have : 0 < (attempt cfg m o).delivered.count x := List.count_pos_iff.mpr hx
+      omega
+    · have : 0 < ((attempt cfg m o).failed.map Prod.fst).count x := List.count_pos_iff.mpr hx
+      omega
+
+/-- The next attempt is made for exactly the recipients that were only transiently refused. -/
+theorem next_attempt_is_the_unsettled (cfg : Cfg) (m : Msg) (res : List (Rcpt × RRes)) (hc : Complete m res)
+    (m' : Msg) (h : (attempt cfg m (.mapping res)).msg = some m') :
+    m'.rcpts = m.rcpts.filter (fun x => !(settledOf res).contains x) := by
+  have hunf : handlePartial cfg m res =
+      if (tempsOf res).isEmpty then ⟨none, bouncesFor cfg (permsOf res) false, oksOf res, permsOf res, none⟩
+      else retryLater cfg m (tempsOf res) (deleteIdxs (res.filterMap fun (rc, v) => match v with
+        | .ok | .perm _ => some (m.rcpts.idxOf rc)
+        | .temp _ => none) m.rcpts) (bouncesFor cfg (permsOf res) false) (oksOf res) (permsOf res) := rfl
+  simp only [attempt] at h
+  rw [hunf] at h
+  split at h
+  · simp at h
+  · simp only [retryLater] at h
+    split at h
+    · simp at h
+    · simp at h; subst h
+      exact remaining_rcpts m res hc
+
+/-- **Index agreement over any number of rounds**: the accumulating storage representation (disk,
+    redis, cloud) returns after every sequence of operations, delivered-marking rounds included,
+    what the reference store returns. -/
+theorem index_agreement (ops : List Store.Op) :
+    (Store.run .accum Store.init ops).2 = (Store.run .inplace Store.init ops).2 :=
+  C15.accum_refines_reference_init ops
+
+/-! ### non-vacuity -/
+
+example : ValidHistory ⟨fun _ => some 0, true, true⟩ (some ⟨[0, 1, 2], 0⟩)
+    [.mapping [(2, .ok), (0, .temp 1), (1, .temp 1)]] := by
+  refine ⟨⟨by decide, by decide, ?_⟩, ?_⟩
+  · intro x; simp; constructor <;> (intro h; rcases h with h | h | h <;> simp [h])
+  · cases h : (attempt ⟨fun _ => some 0, true, true⟩ ⟨[0, 1, 2], 0⟩
+      (.mapping [(2, .ok), (0, .temp 1), (1, .temp 1)])).msg <;> simp [ValidHistory]
+
+example : pres ⟨fun _ => some 0, true, true⟩ (some ⟨[0, 1, 2], 0⟩)
+    [.mapping [(2, .ok), (0, .temp 1), (1, .temp 1)], .mapping [(1, .perm 2), (0, .temp 1)], .success]
+    = [[0, 1, 2], [0, 1], [0]] := by decide
+
 end Slimta.C03
